@@ -6,21 +6,30 @@ import (
 )
 
 // Lines splits a source text at the ES5 line terminators (7.3: LF, CR, CRLF as one, U+2028,
-// U+2029) and returns the byte length of every line without its terminator. A text without any
-// terminator has one line; a text ending in a terminator has an empty last line. Bytes that are
-// not valid UTF-8 count as one-byte characters.
+// U+2029) and returns the length of every line, without its terminator, in characters (Unicode
+// code points as UTF-8 decodes them; a byte that is not valid UTF-8 counts as one character).
+// A text without any terminator has one line; a text ending in a terminator has an empty last line.
 func Lines(src string) []int {
-	var lens []int
+	b := lineBytes(src)
+	out := make([]int, len(b))
+	for i, l := range b {
+		out[i] = utf8.RuneCountInString(l)
+	}
+	return out
+}
+
+func lineBytes(src string) []string {
+	var lens []string
 	start := 0
 	for i := 0; i < len(src); {
 		c := src[i]
 		switch {
 		case c == '\n':
-			lens = append(lens, i-start)
+			lens = append(lens, src[start:i])
 			i++
 			start = i
 		case c == '\r':
-			lens = append(lens, i-start)
+			lens = append(lens, src[start:i])
 			i++
 			if i < len(src) && src[i] == '\n' {
 				i++
@@ -31,18 +40,19 @@ func Lines(src string) []int {
 		default:
 			r, sz := utf8.DecodeRuneInString(src[i:])
 			if r == 0x2028 || r == 0x2029 {
-				lens = append(lens, i-start)
+				lens = append(lens, src[start:i])
 				start = i + sz
 			}
 			i += sz
 		}
 	}
-	return append(lens, len(src)-start)
+	return append(lens, src[start:])
 }
 
 // CheckPosition verifies that (line, column) lies inside the text: 1 <= line <= lines+1 and
-// 1 <= column <= length of that line + 1. Columns are 1-based BYTE columns - that is the unit of
-// parser.position(): it subtracts the byte index of the last line terminator from the byte offset.
+// 1 <= column <= length of that line + 1. Columns are 1-based CHARACTER columns - the unit
+// file.Position documents ("The character count") and parser.position() computes (number of
+// UTF-8 sequences since the last line terminator, plus one).
 // The line after the last one (lines+1) is granted column 1 only. (A position between the CR and
 // the LF of a CRLF pair is, in otto's arithmetic, column 1 of the next line, which is inside.)
 func CheckPosition(src string, line, col int) string {
@@ -57,7 +67,7 @@ func CheckPosition(src string, line, col int) string {
 		return ""
 	}
 	if col < 1 || col > lens[line-1]+1 {
-		return fmt.Sprintf("column %d is outside 1..%d (line %d is %d bytes long)", col, lens[line-1]+1, line, lens[line-1])
+		return fmt.Sprintf("column %d is outside 1..%d (line %d is %d characters long)", col, lens[line-1]+1, line, lens[line-1])
 	}
 	return ""
 }
